@@ -455,7 +455,6 @@ func (r *transport) handleStaleWhileRevalidate(
 	noCacheFieldsSeq iter.Seq[string],
 ) (*http.Response, error) {
 	req2 := req.Clone(req.Context())
-	req2 = withConditionalHeaders(req2, stored.Data.Header)
 	// Background revalidation is "best effort"; it is not guaranteed to complete
 	// if the program exits before the goroutine finishes. This design choice was
 	// made to keep the API simple and avoid requiring explicit shutdown coordination.
@@ -503,6 +502,10 @@ func (r *transport) backgroundRevalidate(
 			errc <- err
 			return
 		}
+		// The validators are those of the copy just loaded, which is the one a
+		// 304 will freshen: the entry may have been replaced since the stale
+		// response was served.
+		req := withConditionalHeaders(req, stored.Data.Header)
 		//nolint:bodyclose // The response is not used, so we don't need to close it.
 		resp, start, end, err := r.roundTripTimed(req)
 		if err != nil {
